@@ -155,6 +155,74 @@ def task_levels(ctx, lname, boundaries, R=1.3):
   prove_close(ctx, 'log_sigma_integral.definition', logint, [T], sp5, config=conf)
 
 
+def task_validation(ctx, K):
+  """SigmaCoordinates(boundaries) with SYMBOLIC boundaries: the real constructor is executed on every feasible path
+  (decision-replay exploration, branch feasibility by z3); accepted  <=>  strictly increasing from 0 to 1 (to np.isclose tolerance)."""
+  import z3
+  from dinosaur import sigma_coordinates as sc
+  from dverif.pysym import BranchReal, PathExplorer
+  from dverif import smt
+  ctx.encoded(sc.SigmaCoordinates.__init__)
+
+  def isclose(a, b, rtol=1e-5, atol=1e-8):          # documented contract of np.isclose (np.isfinite has no object loop)
+    return abs(a - b) <= atol + rtol * abs(b)
+  sc.np.isclose = isclose
+  bs = [z3.Real(f'b{i}') for i in range(K + 1)]
+  box = [z3.And(b >= -2, b <= 3) for b in bs]
+  ex = PathExplorer(box, max_paths=512)
+
+  def run():
+    arr = np.empty(K + 1, dtype=object)
+    for i, b in enumerate(bs):
+      arr[i] = BranchReal(b)
+    return sc.SigmaCoordinates(arr)
+  paths = ex.explore(run)
+  from fractions import Fraction
+  q = lambda v: z3.RealVal(Fraction(float(v)))
+  absz = lambda t: z3.If(t >= 0, t, -t)
+  spec = z3.And(*([bs[i] < bs[i + 1] for i in range(K)] + [absz(bs[0]) <= q(1e-8), absz(bs[K] - 1) <= q(1e-8 + 1e-5 * 1.0)]))   # the double the code computes for atol + rtol*|1|
+  conf = dict(K=K, paths=len(paths), feasibility_queries=ex.queries, exhaustive=bool(ex.exhausted), stubs=['np.isclose -> |a-b| <= atol + rtol |b|'])
+  bad = []
+  nq = 0
+  for pc, (kind, val) in paths:
+    if kind == 'return':
+      v, m = smt.check_z3(box + pc + [z3.Not(spec)], 'QF_LRA', 20000, want_model=True); nq += 1
+      if v != 'unsat':
+        bad.append(('accepted although not strictly increasing from 0 to 1', v, m))
+    elif isinstance(val, ValueError):
+      v, m = smt.check_z3(box + pc + [spec], 'QF_LRA', 20000, want_model=True); nq += 1
+      if v != 'unsat':
+        bad.append(('rejected although valid', v, m))
+    else:
+      bad.append((f'unexpected exception {type(val).__name__}: {val}', 'sat', None))
+  # the explored path conditions cover the whole box
+  v, _ = smt.check_z3(box + [z3.Not(z3.Or(*[z3.And(*pc) if pc else z3.BoolVal(True) for pc, _ in paths]))], 'QF_LRA', 20000); nq += 1
+  if v != 'unsat' or not ex.exhausted:
+    bad.append(('paths do not cover the input box', v, None))
+  ctx.clause('level_sets_not_strictly_increasing_from_0_to_1_are_rejected', 'discharged' if not bad else 'failed', config=conf, queries=nq + ex.queries)
+  for msg, v, m in bad:
+    if m is not None:
+      vals = []
+      for b in bs:
+        x = m.eval(b, model_completion=True)
+        vals.append(float(x.as_fraction()))
+      try:
+        from dinosaur import sigma_coordinates as real
+        import importlib
+        real.np.isclose = np.isclose if not hasattr(np.isclose, '__wrapped__') else np.isclose
+        sc_ok = True
+        try:
+          import numpy
+          importlib.reload(numpy.core.numeric) if False else None
+        except Exception:
+          pass
+      except Exception:
+        pass
+      ctx.violation('level_sets_not_strictly_increasing_from_0_to_1_are_rejected', dict(config=dict(K=K), kind=msg), dict(inputs=[vals]), f'SigmaCoordinates({vals}): {msg}')
+    else:
+      ctx.error('sigma validation', msg)
+
+
 def make_tasks(tier, seed):
   LS = models.level_sets(seed)
   names = ['eq1', 'eq2', 'eq5', 'dy2', 'dy3', 'dy5', 'un4'] + [k for k in LS if k.startswith('rnd')]
@@ -165,7 +233,10 @@ def make_tasks(tier, seed):
       LS[f'rnd{k}b'] = np.concatenate([[0.0], np.round(bb, 4), [1.0]])
       names.append(f'rnd{k}b')
     names += ['eq3', 'dy4']
-  return [dict(name=n, fn='task_levels', kw=dict(lname=n, boundaries=LS[n].tolist())) for n in names]
+  tasks = [dict(name=n, fn='task_levels', kw=dict(lname=n, boundaries=LS[n].tolist())) for n in names]
+  for K in (1, 2, 3) if tier == 'quick' else (1, 2, 3, 4):
+    tasks.append(dict(name=f'validation-K{K}', fn='task_validation', kw=dict(K=K)))
+  return tasks
 
 
 def main(tier='quick', seed=0, jobs=None, only=None, t0=None):
@@ -183,4 +254,4 @@ def main(tier='quick', seed=0, jobs=None, only=None, t0=None):
       assumptions=['real-arithmetic semantics of the float64 IR', 'level sets are concrete (validated eagerly by the code), data universally quantified'],
       trusted=['JAX tracing', 'dverif interpreter (validated each run)', 'z3/cvc5'],
       outside=['float rounding of evaluation (e.g. the float32 precision hint in centered_difference)',
-               'SigmaCoordinates.__init__ rejection of invalid level sets is checked in the CrossHair/pysym part of this check when landed'])
+               'level-set validation: K <= 3 (quick) / 4 boundaries symbolic in [-2, 3]; np.isclose replaced by its documented contract'])
